@@ -132,6 +132,10 @@ def canon(s):
             return canon(["op", "==", ["n", 0], a])  # unsigned: x <= 0 is x == 0
         if o == "<" and b == ["n", 1]:
             return canon(["op", "==", ["n", 0], a])  # unsigned: x < 1 is x == 0
+        if o == "<=" and b[0] == "n" and a[0] != "n":
+            return canon(["op", "<", a, ["n", b[1] + 1]])   # integers: x <= k is x < k + 1
+        if o == "<=" and a[0] == "n" and b[0] != "n" and a[1] > 0:
+            return canon(["op", "<", ["n", a[1] - 1], b])   # integers: k <= x is k - 1 < x
         if o in ("||", "&&") and (a[0] == "bool" or b[0] == "bool"):
             k_, other = (a, b) if a[0] == "bool" else (b, a)
             if o == "||":
@@ -707,6 +711,9 @@ class Builder:
                 self.steps.append(["switch", br[1], br[2], [[c, wrapped(s)] for c, s in br[3]], wrapped(br[4])])
             self._adv()
             return V(br[1])
+        if k == "complete" and not extra and not may_incomplete(seq) and '"Incomplete' not in json.dumps(seq):
+            # complete(p) where p never answers Incomplete is p
+            return self._splice(seq, self._last_child)
         self.steps.append([k, b] + list(extra) + [seq])
         self._adv()
         return V(b)
@@ -1056,11 +1063,24 @@ class Builder:
             return not s["steps"] and s["ret"] and s["ret"][0] == "ok"
         allc = [x[1] for x in built if not rejects(x[1])] + ([] if rejects(d) else [d])
         cand = [s for s in allc if not pure_(s)]
-        if len(cand) >= 2 and all(len(s["steps"]) == 1 and s["steps"][0][0] == "sub" and s["ret"] == ["ok", V(s["steps"][0][1])] for s in cand) \
+        def sub_arm(s):
+            """the arm is one nested grammar on a region, its value possibly wrapped (`k => Ctor(p_k(region)?.1)`)"""
+            if not (len(s["steps"]) == 1 and s["steps"][0][0] == "sub" and s["ret"] and s["ret"][0] == "ok"):
+                return False
+            if s["ret"] == ["ok", V(s["steps"][0][1])]:
+                return True
+            isq = s["steps"][0][3]
+            return occurs(s["ret"][1], V(s["steps"][0][1])) and isq["ret"] and isq["ret"][0] == "ok"
+        if len(cand) >= 2 and all(sub_arm(s) for s in cand) \
                 and all(s["steps"][0][2] == cand[0]["steps"][0][2] for s in cand) and not occurs(scrut, V(cand[0]["steps"][0][1])):
             region = cand[0]["steps"][0][2]
             def inner(s):
-                return s if (rejects(s) or pure_(s)) else s["steps"][0][3]
+                if rejects(s) or pure_(s):
+                    return s
+                isq = s["steps"][0][3]
+                if s["ret"] == ["ok", V(s["steps"][0][1])]:
+                    return isq
+                return {"steps": isq["steps"], "ret": ["ok", subst(s["ret"][1], V(s["steps"][0][1]), isq["ret"][1])]}
             sb_ = self.counter.fresh()
             ib_ = self.counter.fresh()
             flat_ = sorted([[c, inner(s)] for cs, s, _ in built for c in cs], key=lambda x_: x_[0])
@@ -1626,6 +1646,16 @@ class Ev:
                             self.anomalies.append(("REMAINDER", "Result::map closure changes the remainder", short_loc(e.get("loc"))))
                         return sv[1][1]
                 raise Opaque("Result::map with unrecognised closure")
+            if nm == "core::result::Result::<T, E>::and_then" and len(e["args"]) == 1:
+                # r.and_then(|(rem, v)| next(rem, v))  is  let (rem, v) = r?; next(rem, v)
+                clo = strip_ref(e["args"][0])
+                if clo["k"] == "closure" and len(clo["params"]) == 1 and clo["params"][0]["k"] == "ptuple" and len(clo["params"][0]["pats"]) == 2:
+                    v = self.eval_result_block(e["recv"], env, gen, b)
+                    env2 = dict(env)
+                    self.bind_pat(clo["params"][0]["pats"][0], b.tok(), env2)
+                    self.bind_pat(clo["params"][0]["pats"][1], v, env2)
+                    return self.eval_result_block(clo["body"], env2, gen, b)
+                raise Opaque("Result::and_then with a function the analysis cannot read")
             if nm == "core::result::Result::<T, E>::map_err" and len(e["args"]) == 1 and self.is_incomplete_to_complete_mapper(e["args"][0], env):
                 return b.complete(lambda nb: self.eval_result_block(e["recv"], env, gen, nb))
             if nm in ("core::option::Option::<T>::unwrap_or_else", "core::option::Option::<T>::unwrap_or") and len(e["args"]) == 1:
@@ -1644,20 +1674,33 @@ class Ev:
         raise Opaque("result expression kind " + k)
 
     def manual_u8(self, e, env, gen, b):
-        """match i.split_first() { Some((&x, rest)) => Ok((rest, F(x))), None => Err(Incomplete(Needed::new(1))) }: be_u8 by hand"""
+        """match i.split_first() { None => Err(Incomplete(Needed::new(1))), Some((&x, rest)) => Ok((rest, F(x))) }: be_u8 by hand;
+        with constant first-byte patterns (`Some((&0x01, rest)) => A, Some(_) => B`) it is be_u8 followed by a dispatch on the byte"""
         sc = strip(e["scrut"])
-        if not (sc["k"] == "mcall" and (sc.get("path") or "").endswith("::split_first") and len(e["arms"]) == 2):
+        if not (sc["k"] == "mcall" and (sc.get("path") or "").endswith("::split_first") and len(e["arms"]) >= 2):
             return None
         if not b.is_cur(self.sym(sc["recv"], env, gen)):
             return None
-        some_a = none_a = None
+        none_a, some_arms = None, []
         for a in e["arms"]:
             p = a["pat"]
-            if p["k"] == "ptuplestruct" and p["res"].get("path") == "core::option::Option::Some" and len(p["pats"]) == 1 and p["pats"][0]["k"] == "ptuple" and len(p["pats"][0]["pats"]) == 2:
-                some_a = a
-            elif (p["k"] == "pexpr" and p["e"].get("path") == "core::option::Option::None") or p["k"] == "wild":
+            if a.get("guard"):
+                return None
+            if p["k"] == "pexpr" and p["e"].get("path") == "core::option::Option::None":
+                if none_a is not None:
+                    return None
                 none_a = a
-        if some_a is None or none_a is None or some_a.get("guard") or none_a.get("guard"):
+            elif p["k"] == "ptuplestruct" and p["res"].get("path") == "core::option::Option::Some" and len(p["pats"]) == 1:
+                q = p["pats"][0]
+                if q["k"] == "ptuple" and len(q["pats"]) == 2:
+                    some_arms.append((a, q["pats"][0], q["pats"][1]))
+                elif q["k"] in ("wild", "bind") and not q.get("sub"):
+                    some_arms.append((a, {"k": "wild"}, {"k": "wild"}))
+                else:
+                    return None
+            else:
+                return None
+        if none_a is None or not some_arms:
             return None
         nb_ = strip(none_a["body"])
         if not (nb_["k"] == "call" and path_of(nb_["f"]) == "core::result::Result::Err" and self.err_kind(nb_["args"][0])[1] == "Incomplete"):
@@ -1665,12 +1708,31 @@ class Ev:
         inc = strip(strip(nb_["args"][0])["args"][0])
         if not (inc["k"] == "call" and path_of(inc["f"]) == "nom::internal::Needed::new" and self.sym(inc["args"][0], env, gen) == N(1)):
             return None
-        xp, rp_ = some_a["pat"]["pats"][0]["pats"]
         v = b.u(8, "be", "S")
-        env2 = dict(env)
-        self.bind_pat(xp, v, env2)
-        self.bind_pat(rp_, b.tok(), env2)
-        return self.eval_result_block(some_a["body"], env2, gen, b)
+        after = b.tok()
+        cases, default = [], None
+        for a, xp, rp_ in some_arms:
+            q = xp
+            while q["k"] in ("pref", "pderef"):
+                q = q["pat"]
+            consts = None
+            if q["k"] in ("pexpr", "por", "prange"):
+                consts, _ = self.pat_consts(q)
+            def arm_fn(nb, a=a, xp=xp, rp_=rp_, is_const=consts is not None):
+                env2 = dict(env)
+                if not is_const:
+                    self.bind_pat(xp, v, env2)
+                self.bind_pat(rp_, after, env2)
+                return self.eval_result_block(a["body"], env2, gen, nb)
+            if consts is None:
+                default = arm_fn
+                break
+            cases.append((consts, arm_fn))
+        if default is None:
+            return None
+        if not cases:
+            return default(b)
+        return b.switch(v, cases, default)
 
     def manual_opt_complete(self, e, env, gen, b):
         """match p(i) { Ok((r, v)) => Ok((r, F(v))), Err(Failure(e)) => Err(Failure(e)), Err(Incomplete|Error) => Ok((i, G)) }
@@ -2156,6 +2218,16 @@ class Ev:
                     self.bind_pat(some_arm["pat"]["pats"][0], val, env_s)
                     return b.ite(none_c, lambda nb: self.eval_value_expr(none_arm["body"], env, gen, nb), lambda nb: self.eval_value_expr(some_arm["body"], env_s, gen, nb))
             return self.eval_match(e, env, gen, b, lambda body, env2, nb: self.eval_value_expr(body, env2, gen, nb))
+        if k == "field" and e["name"] in ("0", "1") and is_try(e["x"]) is not None:
+            # p(input)?.1 : the value of a parser application whose remainder is dropped (.0 : its remainder)
+            if e["name"] == "1":
+                return self.eval_tuple_expr(e["x"], env, gen, b, rem_wild=True)
+            self.eval_tuple_expr(e["x"], env, gen, b, rem_wild=False)
+            return b.tok()
+        if k == "call" and strip(e["f"]).get("k") == "path" and strip(e["f"]).get("dk", "").startswith("Ctor"):
+            return ctor(strip(e["f"])["path"], *[self.eval_value_expr(a_, env, gen, b) for a_ in e["args"]])
+        if k == "struct" and e.get("base") is None:
+            return ["struct", e["res"]["path"], sorted([f_["name"], self.eval_value_expr(f_["e"], env, gen, b)] for f_ in e["fields"])]
         raise Opaque("effectful value expression " + k)
 
     def apply_choice(self, v, b):
@@ -2466,8 +2538,15 @@ class Ev:
                 arms_tok = self.common_input(e, env, gen)
                 if arms_tok is not None and not b.is_cur(arms_tok) and arms_tok[0] != "tok":
                     return self.sub_eval(e, env, gen, b, arms_tok)
+            if not rem_wild:
                 return self.eval_result_block(e, env, gen, b)
-            return self.eval_result_block(e, env, gen, b)
+            # `let (_, v) = <choice of results>?`: whatever remainder the chosen result carries is dropped here
+            saved = b.drops_remainder
+            b.drops_remainder = True
+            try:
+                return self.eval_result_block(e, env, gen, b)
+            finally:
+                b.drops_remainder = saved
         if b.is_cur(tok):
             if rem_wild:
                 return b.peek(lambda nb: self.eval_result_block(e, env, gen, nb))
@@ -2869,6 +2948,41 @@ class Ev:
                     n = lp.apply(b)
                     return b.bytes(n, "S")
                 return ParserFn(ld, fp)
+            if fp in ("nom::multi::fold_many0", "nom::multi::fold_many1") and len(a) == 3:
+                # fold_many0(p, Vec::new, |mut acc, x| { acc.push(x); acc }) is many0(p)
+                init = strip_ref(a[1])
+                init_ok = (init["k"] == "path" and path_of(init) == "alloc::vec::Vec::<T>::new") or \
+                    (init["k"] == "closure" and not init["params"] and strip(init["body"]).get("k") == "call" and path_of(strip(init["body"])["f"]) == "alloc::vec::Vec::<T>::new")
+                fold = strip_ref(a[2])
+                params = body = None
+                if fold["k"] == "closure":
+                    params, body = fold["params"], strip(fold["body"])
+                elif fold["k"] == "path" and fold.get("dk") in ("Fn", "AssocFn") and (fold.get("resolved_local") if fold.get("resolved") else fold.get("local")):
+                    callee = self.facts.fn(fold.get("resolved") or fold["path"])
+                    if callee is not None:
+                        params, body = callee["params"], strip(callee["hir"])
+                push_ok = False
+                if params is not None and len(params) == 2 and all(p_["k"] == "bind" for p_ in params) and body["k"] == "block" and len(body["stmts"]) == 1 and body["expr"] is not None:
+                    st_ = body["stmts"][0]
+                    pe = strip(st_["e"]) if st_["k"] in ("semi", "sexpr") else None
+                    push_ok = pe is not None and pe["k"] == "mcall" and (pe.get("path") or "").endswith("Vec::<T, A>::push") and strip_ref(pe["recv"]).get("id") == params[0]["id"] \
+                        and len(pe["args"]) == 1 and strip(pe["args"][0]).get("id") == params[1]["id"] and strip(body["expr"]).get("id") == params[0]["id"]
+                if init_ok and push_ok:
+                    ip = self.parser_of(a[0], env, gen)
+                    meth = "many0" if fp.endswith("0") else "many1"
+                    return ParserFn(lambda b: getattr(b, meth)(ip.apply), fp)
+                raise Opaque("fold_many with an accumulator the analysis cannot read")
+            if fp == "nom::multi::length_value":
+                # length_value(f, g): f gives n, n bytes are taken (streaming), g runs on them with an Incomplete of g
+                # turned into Error(Complete) - i.e. complete(g) inside the region - and what g leaves is dropped
+                lp = self.parser_of(a[0], env, gen)
+                gp = self.parser_of(a[1], env, gen)
+
+                def lv(b):
+                    n = lp.apply(b)
+                    r = b.bytes(n, "S")
+                    return b.sub(r, lambda nb: nb.complete(gp.apply))
+                return ParserFn(lv, fp)
             if fp == "nom::multi::length_count":
                 lp = self.parser_of(a[0], env, gen)
                 ep = self.parser_of(a[1], env, gen)
@@ -2911,7 +3025,17 @@ class Ev:
                 f2 = strip_ref(a[1])
                 tgt = (f2.get("resolved") or f2.get("path") or "") if f2["k"] == "path" else ""
                 m_ = re.search(r"\[u8; (\d+)", tgt + " " + str(f2.get("args", "")) + " " + f2.get("ty", ""))
-                if "TryFrom" in tgt and "try_from" in tgt and m_:
+                if f2["k"] == "closure" and len(f2["params"]) == 1 and f2["params"][0]["k"] == "bind":
+                    # |s: &[u8]| s.try_into()   /   |s| <&[u8; N]>::try_from(s)
+                    cb = strip(f2["body"])
+                    pid = f2["params"][0]["id"]
+                    if cb["k"] == "mcall" and (cb.get("path") or "").endswith("TryInto::try_into") and strip_ref(cb["recv"]).get("id") == pid:
+                        tgt = "TryInto::try_into"
+                        m_ = re.search(r"\[u8; (\d+)", str(cb.get("gargs", "")) + " " + cb.get("ty", ""))
+                    elif cb["k"] == "call" and "TryFrom" in (path_of(cb["f"]) or "") and (path_of(cb["f"]) or "").endswith("try_from") and len(cb["args"]) == 1 and strip_ref(cb["args"][0]).get("id") == pid:
+                        tgt = "TryFrom::try_from"
+                        m_ = re.search(r"\[u8; (\d+)", str(strip(cb["f"]).get("args", "")) + " " + cb.get("ty", ""))
+                if (("TryFrom" in tgt and "try_from" in tgt) or ("TryInto" in tgt and "try_into" in tgt)) and m_:
                     n_ = int(m_.group(1))
                     def mr(b, n_=n_):
                         v = p1.apply(b)
@@ -3232,6 +3356,8 @@ class Ev:
                     args.append(["lam", 1, self.pure_call(a2.get("resolved") or a2["path"], [["lp", 0]])])
                 else:
                     args.append(self.sym(a, env, gen))
+            if not args and (p == "core::clone::Clone::clone" or p.endswith("as core::clone::Clone>::clone") or p.endswith("::clone") and "Clone" in p):
+                return recv   # values are compared, not their storage
             if p == "core::slice::<impl [T]>::len" or p.endswith("::len") and not args:
                 if recv[0] == "tokbytes":
                     return ["remaining_at", recv[1]]   # what remains at that position of the input (see Builder.norm)
